@@ -39,6 +39,8 @@ def parseAction (s : String) : Option Action :=
     | "change-query" => some (.changeQuery (Utf8.toRunes (dotBytes arg)))
     | "print" => some (.print (dotBytes arg))
     | "pos" => some (.pos (parseInt arg))
+    -- a press of one of the --expect keys ends the session like accept (the key is named in the output)
+    | "xkey" => some .accept
     | _ => none
   | _ => none
 
@@ -125,7 +127,24 @@ def run (ctx : Algo.Ctx) (op : String) (args impl : List String) : Outcome :=
     -- output on exit
     let printq := o "printq" "0" == "1"
     let nl (x : Str) := x ++ [10]
-    let (code, recs) := exitOutput printq (fun i => texts.getD i []) (Utf8.fromRunes final.input) final
+    -- --accept-nth: the printed text is the selected fields of the record (AWK-style fields)
+    let anth := o "anth" "_"
+    let outText (i : Nat) : Str :=
+      let raw := texts.getD i []
+      if anth == "_" then raw else
+        match Fzf.Tokenizer.splitNth (anth.toList.map Char.toNat) with
+        | some rs => Fzf.Tokenizer.stripLastDelimiter Tok.isSpace
+            (Fzf.Tokenizer.joinTokens (Fzf.Tokenizer.transform (Fzf.Tokenizer.tokenize raw .awk) rs)) .awk
+        | none => raw
+    -- --expect: the key that ended the session, or an empty line
+    let expectLine : Option Str :=
+      if o "expect" "_" == "_" then none else
+        match (if steps == "_" then [] else steps.splitOn ";").getLast? with
+        | some st => (match st.splitOn "=" with
+            | ["xkey", k] => some (dotBytes k)
+            | _ => some [])
+        | none => some []
+    let (code, recs) := exitOutput printq outText (Utf8.fromRunes final.input) final expectLine
     let out : Str := recs.flatMap nl
     let model := s!"{if obs.isEmpty then "_" else "/".intercalate obs} {code} {showNatList out}"
     -- invariants of C09, judged on the implementation's own observations
